@@ -80,6 +80,15 @@ impl KeyGen {
   }
 }
 
+thread_local! {
+  static HOOK_YIELDS: Cell<bool> = const { Cell::new(true) };
+}
+
+/// Enables/disables yields at the storage hooks (oracle-side observer reads must not consume the tape).
+pub fn set_hook_yields(on: bool) {
+  HOOK_YIELDS.with(|c| c.set(on));
+}
+
 /// Installs the storage hooks for this thread: yields decided by the tape with probability `yield_num/yield_den`,
 /// key ids and secrets from `keygen`.
 pub fn install_hooks(keygen: Rc<RefCell<KeyGen>>, yield_num: u32, yield_den: u32) {
@@ -87,7 +96,7 @@ pub fn install_hooks(keygen: Rc<RefCell<KeyGen>>, yield_num: u32, yield_den: u32
   let kg2 = keygen;
   identity_storage::verif_hooks::install(identity_storage::verif_hooks::Hooks {
     should_yield: Box::new(move |label| {
-      if !ctx::active() {
+      if !ctx::active() || !HOOK_YIELDS.with(|c| c.get()) {
         return false;
       }
       let y = ctx::chance(yield_num, yield_den);
@@ -795,6 +804,7 @@ impl Engine for KsEngine {
     let keygen_seed = ((ctx::draw_u32() as u64) << 32) | ctx::draw_u32() as u64;
     let keygen = Rc::new(RefCell::new(KeyGen::new(keygen_seed)));
     install_hooks(keygen.clone(), yn, yd);
+    set_hook_yields(true);
 
     let sh = Shared {
       jwk: JwkMemStore::new(),
@@ -868,7 +878,7 @@ impl Engine for KsEngine {
       }
       ctx::stat_n("steps", steps);
     }
-    uninstall_hooks();
+    set_hook_yields(false);
 
     // ---- history checks ----
     let events = sh.events.borrow();
@@ -1044,5 +1054,6 @@ impl Engine for KsEngine {
     }
     ctx::stat_max("max.clients", n_clients as u64);
     ctx::stat_n("ops", events.len() as u64);
+    uninstall_hooks();
   }
 }
